@@ -98,7 +98,7 @@ def shard_identity(seed, count):
         tn, row = e1prop.ROWS[name]
         w = e1prop.build_word(row, rng.getrandbits(32), rng.getrandbits(31))
         thumb = tn != 'arm'
-        cfgname = rng.choice(('v6', 'v7', 'v7-virt', 'v6-nosec'))
+        cfgname = rng.choice(('v6', 'v7', 'v7-virt', 'v6-nosec', 'v7r'))
         if not thumb:
             if 'c' not in row.fields:
                 continue
@@ -121,6 +121,12 @@ def shard_identity(seed, count):
         case = gen.step_case(rng, cfgname, thumb, code, it=it, e=0, mpu=False, mmu=False)
         st = case['state']
         st['cpsr'] = (st['cpsr'] & 0x0FFFFFFF) | (nzcv << 28)
+        if name.startswith(('SDIV', 'UDIV')):
+            # the one execute-time trap that is not an UNDEFINED encoding: divide by zero with SCTLR.DZ on the R profile
+            st['sctlr'] = st.get('sctlr', 0) | (rng.getrandbits(1) << 19)
+            fm = row.extract(w).get('m')
+            if isinstance(fm, int) and fm <= 14 and rng.random() < 0.6:
+                st[gen.bank_key(fm, gen.MODE_NAME[st['cpsr'] & 31])] = 0
         # legality through the reference decode only (no reference semantics are used for the verdict)
         cpu, pre, posts, excs = e1.run(case)
         M = Machine(pre, [tuple(m) for m in case['mems']], diff.full_cfg(case['cfg']))
@@ -149,7 +155,10 @@ def shard_identity(seed, count):
             pre2 = dict(pre)
             pre2['cpsr'] = (pre['cpsr'] & 0x0FFFFFFF) | (passing_flags(rng, c2) << 28)
             M2 = Machine(pre2, [tuple(m) for m in case['mems']], diff.full_cfg(case['cfg']))
-            if rstep.step(M2)[0] == 'undef':
+            st2 = rstep.step(M2)
+            if st2[0] == 'undef' and 'divide by zero' not in st2[1]:
+                # (the divide-by-zero trap is an exception generated by executing a defined instruction, inside ConditionPassed(): a failed
+                # condition must not take it)
                 acc.excluded += 1
                 continue
         if excs[0] is not None:
